@@ -31,13 +31,15 @@ def _export(ctx, cfg):
     return exported
 
 
-def items(ctx, quick, families=None, malformed=False, max_nest=None):
+def items(ctx, quick, families=None, malformed=False, max_nest=None, max_n=None):
     exported = _export(ctx, "MC_Scale_quick.cfg" if quick else "MC_Scale_thorough.cfg")
     out = []
     for e in exported:
         if families and e["fam"] not in families:
             continue
         if max_nest is not None and (e["fam"].startswith("nest_") or e["fam"] in ("chain_plus", "chain_mem", "chain_call")) and e["n"] > max_nest:
+            continue
+        if max_n is not None and e["n"] > max_n and not (e["fam"] == "long_str" and e["n"] <= 600):
             continue
         bad = e["want"].get("k") == "nil"
         if bad != malformed and not (malformed is None):
